@@ -39,7 +39,7 @@ def stress_configs(ctx):
         return [dict(g=8, e=8, r=3, procs=4, calls=24, tz=TZS[ctx.seed % 4])]
     out = []
     i = 0
-    for g, e, r, calls in ((2, 4, 1, 60), (8, 10, 3, 40), (32, 20, 4, 24)):
+    for g, e, r, calls in ((2, 4, 1, 60), (8, 12, 3, 40), (32, 30, 4, 24)):
         for procs in (1, 4, 16):
             out.append(dict(g=g, e=e, r=r, procs=procs, calls=calls, tz=TZS[(i + ctx.seed) % 4]))
             i += 1
@@ -59,11 +59,13 @@ def run(ctx):
         jobs["model2"] = ex.submit(D.model_check, ctx, "C04_MC", "C04_mc_quick.cfg", tag="model2", workers=6)
         if not quick:
             jobs["model3"] = ex.submit(D.model_check, ctx, "C04_MC", "C04_mc.cfg", tag="model3", workers=6)
+            jobs["model2tz"] = ex.submit(D.model_check, ctx, "C04_MC", "C04_mc2.cfg", tag="model2tz", workers=6)
+            jobs["model2t3"] = ex.submit(D.model_check, ctx, "C04_MC", "C04_mc_t3.cfg", tag="model2t3", workers=6)
         for m in (MUTANTS[:4] if quick else MUTANTS):
             jobs["mut-" + m] = ex.submit(D.mutant_twin, ctx, "C04_MC", "C04_mut_%s.cfg" % m, m, workers=3)
         if not quick:
             for m in MUTANTS3:
-                jobs["mut3-" + m] = ex.submit(D.mutant_twin, ctx, "C04_MC", "C04_mut3_%s.cfg" % m, m + "/3", workers=3)
+                jobs["mut3-" + m] = ex.submit(D.mutant_twin, ctx, "C04_MC", "C04_mut3_%s.cfg" % m, m + "-3", workers=3)
         G = lambda name, cfg, **kw: jobs.__setitem__(name, ex.submit(gen, ctx, cfg, "gen-" + name, **kw))
         G("schedA", "C04_schedA.cfg", workers=4)
         G("time", "C04_time.cfg", workers=2)
